@@ -572,6 +572,11 @@ func extractHavingAggregates(having string, aggs map[string]aggregator.Aggregate
 		if !ok || fn.GetType() != functions.TypeAggregation {
 			continue
 		}
+		// an aggregate call nested in the previous one (max(max(x))) belongs to that call's text:
+		// rewriting both would cut the text at overlapping positions
+		if n := len(spans); n > 0 && m[0] <= spans[n-1].closeParen {
+			continue
+		}
 		openParen := m[1] - 1
 		cp := findMatchingParenInternal(having, openParen)
 		if cp < 0 {
